@@ -239,6 +239,18 @@ def tmsRowsInRange (cols : List String) (epochs : List Env) : Bool :=
     | some cells => tmsCellsOk cells
     | none => false
 
+/-! ### csv_ -/
+
+/-- the separator class of parsers/csv_.py: `sep="[\;,\,]"` -/
+def isCsvSep (c : Char) : Bool := c == ',' || c == ';'
+
+def splitSepAux : Str → Str → List Str
+  | [], cur => [cur.reverse]
+  | c :: rest, cur => if isCsvSep c then cur.reverse :: splitSepAux rest [] else splitSepAux rest (c :: cur)
+
+/-- cutting a line at every `,` or `;` (always at least one piece) -/
+def splitSep (s : Str) : List Str := splitSepAux s []
+
 /-! ### range predicates of the file-level round trips (decidable; evaluated by the driver on every generated case) -/
 
 /-- the positional values of a CRD line -/
